@@ -522,7 +522,7 @@ func main() {
 		Exec:   exec,
 		Init:   initOnce,
 		Corpus: corpus,
-		N:      map[string]int{"quick": 1000, "thorough": 60000},
+		N:      map[string]int{"quick": 1000, "thorough": 20000},
 	})
 	os.RemoveAll(tmpDir)
 }
